@@ -344,6 +344,12 @@ func (w *World) expiration(label string) *time.Time {
 		e = bt.Add(-time.Hour)
 	case x < 80:
 		e = bt.Add(time.Duration(1+w.intn(label+"s", 600)) * time.Second)
+	case x < 86:
+		// "never expires" dates, and the instants around which a nanosecond count no longer fits 64 bits
+		w.Flags["far-future-expiration"] = true
+		e = pickOf(w, label+"far", []time.Time{
+			time.Date(2262, 4, 11, 23, 47, 16, 854775807, time.UTC), time.Date(2262, 4, 11, 23, 47, 16, 854775808, time.UTC), time.Date(2262, 4, 12, 0, 0, 0, 0, time.UTC),
+			time.Date(2300, 1, 1, 0, 0, 0, 0, time.UTC), time.Date(2600, 1, 1, 0, 0, 0, 0, time.UTC), time.Date(3000, 1, 1, 0, 0, 0, 0, time.UTC), time.Date(9999, 12, 31, 23, 59, 59, 999999999, time.UTC)})
 	default:
 		e = bt.Add(time.Duration(1+w.intn(label+"d", 90)) * 24 * time.Hour)
 	}
